@@ -16,7 +16,8 @@ CONSTANTS RawStrict,        \* strict reader compares raw spellings: whitespace 
           DipoleUnchecked,  \* reversed duplicates in [EAM-ADP-Dipole] / [EAM-ADP-Quadrupole] are not looked for
           BuiltinClashCrashes, \* a [Table-Form] named like a built-in form raises an internal error instead of a configuration error
           LateBuiltinShadowed, \* built-in forms registered AFTER the user's forms (as.buck4) are silently replaced by a user form of that name
-          AddRawKey            \* the already-exists guard of the add route compares the raw key spelling
+          AddRawKey,           \* the already-exists guard of the add route compares the raw key spelling
+          AddMerged            \* several additions of one item are merged (the last wins) before the guard sees them
 
 \* an entry: section kind, the thing it defines, and how its key is spelled relative to the first definition
 \*   spelling: "same" | "ws" (whitespace variant) | "rev" (species the other way round) | "revws" | "other-arity" | "n/a"
@@ -45,9 +46,12 @@ Ops == {
   [op |-> "form-vs-late-builtin", sec |-> "Potential-Form", thing |-> "form as.buck4", sp |-> "n/a"],
   [op |-> "section-twice",    sec |-> "Pair",           thing |-> "section Pair", sp |-> "same"] }
 
-Routes == {"file", "add"}
-\* an added item is one key of an existing section: whole sections cannot be duplicated that way
-Addable(o) == o.sec # "Table-Form" /\ o.op # "section-twice"
+\* "add": the second definition arrives through --add-item / additional= ; "add2": BOTH definitions do (the file has neither)
+Routes == {"file", "add", "add2"}
+\* an added item is one key: of an existing section, or of a section the addition creates ('Table-Form: tf:xy=...' makes a
+\* whole table form); a section cannot be listed twice that way, nor an existing table form be given a second time
+Addable(o) == o.op \notin {"section-twice", "table-same"}
+Addable2(o) == Addable(o) /\ o.sec # "Table-Form" /\ o.sp # "n/a"
 
 VARIABLES op, route, stage, outcome    \* outcome: "pending" | "config" | "internal" | "accepted"
 vars == <<op, route, stage, outcome>>
@@ -64,7 +68,8 @@ Catches(st, o) ==
             \/ o.sec # "Table-Form" /\ o.sp = "ws" /\ ~RawStrict
     [] st = "add-guard" ->
          \* _init_config_parser: an additional item whose (normalised) key is already in the section
-         route = "add" /\ (o.sp = "same" \/ (o.sp = "ws" /\ ~AddRawKey))
+         \/ route = "add" /\ (o.sp = "same" \/ (o.sp = "ws" /\ ~AddRawKey))
+         \/ route = "add2" /\ ~AddMerged /\ (o.sp = "same" \/ (o.sp = "ws" /\ ~AddRawKey))
     [] st = "dup-pairs" -> o.sec = "Pair" /\ o.sp \in {"rev", "revws"}           \* _check_for_duplicate_pairs: either order, stripped
     [] st = "dup-table-sections" -> o.sec = "Table-Form" /\ o.sp = "ws"       \* [Table-Form:tf] / [Table-Form: tf]: names stripped before comparison
     [] st = "registry-tables" -> o.op = "table-vs-builtin"                          \* table forms are built after the built-ins are registered
@@ -74,7 +79,7 @@ Catches(st, o) ==
     [] OTHER -> FALSE
 
 
-Init == op \in Ops /\ route \in Routes /\ (route = "add" => Addable(op)) /\ stage = 1 /\ outcome = "pending"
+Init == op \in Ops /\ route \in Routes /\ (route = "add" => Addable(op)) /\ (route = "add2" => Addable2(op)) /\ stage = 1 /\ outcome = "pending"
 
 Step == /\ outcome = "pending"
         /\ IF Stages[stage] = "end" THEN outcome' = "accepted" /\ UNCHANGED stage
@@ -92,7 +97,7 @@ Terminates == (~ENABLED Step) => outcome # "pending"
 
 Emit == IF "EMIT" \in DOMAIN IOEnv /\ IOEnv.EMIT = "1"
         THEN ndJsonSerialize(IOEnv.VERIF_OUT \o "/cases.ndjson", SetToSeq({[op |-> x[1].op, sec |-> x[1].sec, thing |-> x[1].thing, sp |-> x[1].sp, route |-> x[2]] :
-                                                                              x \in {y \in Ops \X Routes : y[2] = "add" => Addable(y[1])}}))
+                                                                              x \in {y \in Ops \X Routes : (y[2] = "add" => Addable(y[1])) /\ (y[2] = "add2" => Addable2(y[1]))}}))
         ELSE TRUE
 ASSUME Emit
 =============================================================================
